@@ -17,6 +17,7 @@ import random
 import re
 import shutil
 import tempfile
+import threading
 import unicodedata
 
 import lbry.wallet  # noqa: F401  (import order, see DESIGN 2.3)
@@ -123,7 +124,7 @@ def spec_stream_hash(stream_name, key, suggested, blobs):
     return outer.hexdigest()
 
 
-FORBIDDEN_NAME_CHARS = set('<>:"/\\|?*') | {chr(i) for i in range(32)}
+FORBIDDEN_NAME_CHARS = set('<>:"/\\|?*') | {chr(i) for i in range(32)} | {chr(i) for i in range(0x7f, 0xa0)}   # Cc
 
 
 def name_unsafe(s):
@@ -522,7 +523,7 @@ def create_cases(rng, tier):
     for nm in names:
         cases.append(mk(rng.choice([32, 64]), rng.randrange(1, 200), name=nm))
     # random
-    for _ in range(vlib.scaled(tier, 200, 4000)):
+    for _ in range(vlib.scaled(tier, 120, 4000)):
         maxb = rng.choice([17, 32, 33, 48, 64, 80, 128, 255, 256, 512])
         size = rng.randrange(0, 6 * maxb)
         cases.append(mk(maxb, size, keylen=rng.choice([16, 16, 16, 24, 32]), old_sort=rng.random() < 0.3,
@@ -946,6 +947,447 @@ def daemon_cases(rng, tier):
                         names, save_blobs=rng.choice([None, False])))
     return cases
 
+
+# ------------------------------------------------------------------------------------------------
+# (a4) histories of the real saver / streamer / recovery:
+#      cancel a save between two blob writes, HTTP range requests through stream_file, restart with a lost sd blob
+# ------------------------------------------------------------------------------------------------
+
+def dir_listing(dl):
+    out = {}
+    for nm in sorted(os.listdir(dl)):
+        p = os.path.join(dl, nm)
+        if os.path.isfile(p):
+            out[nm] = open(p, 'rb').read().hex()
+    return out
+
+
+async def publish_and_load(loop, env, case, data):
+    """publish with the real create_stream, then load the descriptor as the downloading side does"""
+    pub = os.path.join(env.dir, 'publish')
+    os.makedirs(pub, exist_ok=True)
+    fp = os.path.join(pub, case['name'])
+    with open(fp, 'wb') as f:
+        f.write(data)
+    ivs = gen_ivs(case, n_pieces(len(data), case['maxb']) + 1)
+    sd = await StreamDescriptor.create_stream(loop, env.blob_dir, fp, bytes.fromhex(case['key']), iter(ivs),
+                                              blob_completed_callback=env.bm.blob_completed)
+    loaded = await env.bm.get_stream_descriptor(sd.sd_hash)
+    await env.storage.store_stream(env.bm.get_blob(sd.sd_hash), loaded)
+    return loaded
+
+
+async def impl_savecancel(loop, case):
+    set_maxb(case['maxb'])
+    env = Env(loop, save_blobs=case.get('save_blobs'))
+    await env.open()
+    obs, raw = {}, {}
+    ms = None
+    release = threading.Event()
+    try:
+        data = gen_data(case['data'])
+        raw['data'] = data
+        loaded = await publish_and_load(loop, env, case, data)
+        dl = os.path.join(env.dir, 'downloads')
+        os.mkdir(dl)
+        ms = ManagedStream(loop, env.conf, env.bm, loaded.sd_hash, dl, descriptor=loaded)
+        reached = asyncio.Event()
+        writes = [0]
+        orig = ManagedStream._write_decrypted_blob
+
+        def write_then_pause(path, blob):       # the disk beneath the saver: pauses after the k-th blob was written
+            orig(path, blob)
+            writes[0] += 1
+            if writes[0] == case['cancel_after']:
+                loop.call_soon_threadsafe(reached.set)
+                release.wait(10)
+        ms._write_decrypted_blob = write_then_pause
+        env.conf.download_timeout = 0.5      # save_file() itself waits this long for the first blob to be written
+        first = asyncio.ensure_future(ms.save_file())
+        waiter = asyncio.ensure_future(reached.wait())
+        await asyncio.wait([waiter, first], timeout=10, return_when=asyncio.FIRST_COMPLETED)
+        if not reached.is_set() and ms.file_output_task:         # save_file returned, blobs still being written
+            await asyncio.wait([waiter, ms.file_output_task], timeout=10, return_when=asyncio.FIRST_COMPLETED)
+        obs['cancelled'] = reached.is_set()
+        second = None
+        if reached.is_set():
+            route = case.get('route', 'stop_tasks')
+            if route == 'stop_tasks':
+                await ms.stop_tasks()
+            elif route == 'stop':
+                await ms.stop()
+            else:                                # a second save_file() while the first one is still writing
+                second = asyncio.ensure_future(ms.save_file())
+                await asyncio.sleep(0.05)
+        release.set()
+        waiter.cancel()
+        await asyncio.wait([first], timeout=10)
+        if second is not None:
+            await asyncio.wait([second], timeout=10)
+        if ms.file_output_task:
+            await asyncio.wait([ms.file_output_task], timeout=10)
+        await asyncio.sleep(0)
+        obs['writes_before_cancel'] = writes[0] if reached.is_set() and case.get('route', 'stop_tasks') != 'second_save' else None
+        obs['after_cancel'] = dir_listing(dl)
+        ms._write_decrypted_blob = orig
+        if case.get('resave', True):
+            await ms.save_file()
+            if ms.file_output_task:
+                await asyncio.wait([ms.file_output_task], timeout=10)
+            obs['after_resave'] = dir_listing(dl)
+            obs['final_name'] = ms.file_name
+        return obs, raw
+    finally:
+        release.set()
+        if ms is not None:
+            try:
+                await ms.stop_tasks()
+            except Exception:
+                pass
+        await env.close()
+        set_maxb(REAL_MAXB)
+
+
+def next_free(name, taken):
+    base, ext = os.path.splitext(name)
+    i, cand = 0, name
+    while cand in taken:
+        i += 1
+        cand = '%s_%i%s' % (base, i, ext)
+    return cand
+
+
+def check_savecancel(run, model, loop, case):
+    obs, raw = loop.run_until_complete(impl_savecancel(loop, case))
+    data = raw['data']
+    run.case(case, nontrivial=True)
+    run.count('savecancel:%s' % case.get('route', 'stop_tasks'))
+    bad = None
+    for phase in ('after_cancel', 'after_resave'):
+        for nm, content in obs.get(phase, {}).items():
+            if content != data.hex():
+                got = bytes.fromhex(content)
+                kind = 'a truncated prefix (%d of %d bytes)' % (len(got), len(data)) if data.startswith(got) else 'other bytes'
+                bad = ('%s: the download directory holds %r with %s of the published file (save cancelled after %s of %d '
+                       'blobs, route %s)' % (phase, nm, kind, case['cancel_after'], n_pieces(len(data), case['maxb']),
+                                             case.get('route', 'stop_tasks')))
+                break
+            if name_unsafe(nm):
+                bad = '%s: %s' % (phase, name_unsafe(nm))
+        if bad:
+            break
+    if not bad and case.get('resave', True) and data.hex() not in obs.get('after_resave', {}).values():
+        bad = 'after a complete save_file() no file with the published content exists: %r' % sorted(obs.get('after_resave', {}))
+    if bad:
+        run.violation(case, bad, signature={k: case.get(k) for k in ('op', 'maxb', 'name', 'data', 'cancel_after', 'route')})
+        return
+    if case.get('route', 'stop_tasks') == 'second_save':
+        return              # which free name the second save picks while the first is being cleaned up is a race
+    n = n_pieces(len(data), case['maxb'])
+    # model steps: the cancellation lands after cancel_after blob writes = it may take cancel_after steps (the pause is
+    # inside the write), n + 1 steps complete the save
+    k = case['cancel_after'] if obs['cancelled'] else n + 1
+    left = model.call('cancel', maxb=case['maxb'], file=data.hex(), k=k)
+    sugg = bytes.fromhex(desc_name_hex(case, model)).decode()
+    nm = uncps(model.call('save_name', sugg=cps(sugg))['save'])
+    mod = {'cancelled': case['cancel_after'] <= n, 'writes_before_cancel': case['cancel_after'] if case['cancel_after'] <= n else None,
+           'after_cancel': {} if left is None else {nm: left}}
+    if case.get('resave', True):
+        nm2 = next_free(nm, mod['after_cancel'])
+        mod['after_resave'] = dict(mod['after_cancel'], **{nm2: data.hex()})
+        mod['final_name'] = nm2
+    run.compare('C02.save_cancel', case, obs, mod)
+
+
+def desc_name_hex(case, model):
+    """hex of the suggested_file_name create_stream stores for this published name (model side)"""
+    s = model.call('sanitize', name=cps(case['name']))['out']
+    return ''.join(map(chr, s)).encode().hex()
+
+
+def savecancel_cases(rng, tier):
+    cases = []
+
+    def mk(maxb, nblobs, k, route='stop_tasks', name='movie.mp4', save_blobs=None, resave=True):
+        size = (maxb - 1) * (nblobs - 1) + rng.randrange(1, maxb - 1)
+        return {'op': 'savecancel', 'maxb': maxb, 'save_blobs': save_blobs, 'name': name, 'key': rng.randbytes(16).hex(),
+                'iv_mode': 'random', 'iv_seed': rng.randrange(1 << 30), 'cancel_after': k, 'route': route, 'resave': resave,
+                'data': {'size': size, 'kind': 'random', 'seed': rng.randrange(1 << 30)}}
+    for n in (1, 2, 3, 6):
+        for k in sorted({1, 2, n - 1, n, n + 1} - {0}):
+            cases.append(mk(32, n, k))
+    cases.append(mk(64, 4, 2, route='stop'))
+    cases.append(mk(64, 5, 1, route='second_save'))
+    cases.append(mk(32, 4, 3, route='second_save'))
+    cases.append(mk(32, 3, 1, name='we?ird\nna*me.tar.gz'))
+    cases.append(mk(32, 3, 2, save_blobs=False))
+    cases.append(mk(REAL_MAXB, 3, 1, name='big.bin') if tier == 'thorough' else mk(4096, 3, 1, name='big.bin'))
+    for _ in range(vlib.scaled(tier, 6, 150)):
+        n = rng.randrange(1, 8)
+        cases.append(mk(rng.choice([17, 32, 64]), n, rng.randrange(1, n + 2), route=rng.choice(['stop_tasks', 'stop_tasks', 'stop']),
+                        save_blobs=rng.choice([None, None, False])))
+    return cases
+
+
+class BodyCollector:
+    """the HTTP payload writer beneath aiohttp's StreamResponse: keeps what stream_file sends"""
+    def __init__(self):
+        self.body = b''
+        self.headers = None
+        self.buffer_size = 0
+        self.output_size = 0
+        self.length = None
+
+    async def write(self, chunk, *a, **k):
+        self.body += bytes(chunk)
+
+    async def write_eof(self, chunk=b''):
+        self.body += bytes(chunk)
+
+    async def write_headers(self, status_line, headers):
+        self.headers = dict(headers)
+
+    async def drain(self):
+        pass
+
+    def send_headers(self):
+        pass
+
+    def enable_chunking(self):
+        pass
+
+    def enable_compression(self, *a, **k):
+        pass
+
+    def set_eof(self):
+        pass
+
+
+async def impl_range(loop, case):
+    from aiohttp.test_utils import make_mocked_request
+    set_maxb(case['maxb'])
+    env = Env(loop, save_blobs=case.get('save_blobs'))
+    await env.open()
+    obs, raw = {'reads': []}, {}
+    ms = None
+    try:
+        data = gen_data(case['data'])
+        raw['data'] = data
+        loaded = await publish_and_load(loop, env, case, data)
+        ms = ManagedStream(loop, env.conf, env.bm, loaded.sd_hash, env.dir, descriptor=loaded)
+        for start in case['starts']:
+            o = {'start': start}
+            try:
+                _, size, skip_blobs, offset = ms._prepare_range_response_headers('bytes=%d-' % start)
+                o.update({'skip_blobs': skip_blobs, 'offset': offset})
+                pw = BodyCollector()
+                req = make_mocked_request('GET', '/stream/' + loaded.sd_hash, headers={'range': 'bytes=%d-' % start}, writer=pw)
+                await asyncio.wait_for(ms.stream_file(req), 30)
+                raw.setdefault('bodies', {})[start] = pw.body
+                real = len(data) - start
+                o['body'] = hashlib.sha384(pw.body[:real]).hexdigest() if len(data) > 65536 else pw.body[:real].hex()
+                o['padding_is_zero'] = not any(pw.body[real:])
+            except Exception as e:   # noqa
+                o['error'] = type(e).__name__
+            obs['reads'].append(o)
+        return obs, raw
+    finally:
+        if ms is not None:
+            try:
+                await ms.stop_tasks()
+            except Exception:
+                pass
+        await env.close()
+        set_maxb(REAL_MAXB)
+
+
+def check_range(run, model, loop, case):
+    obs, raw = loop.run_until_complete(impl_range(loop, case))
+    data = raw['data']
+    run.case(case, nontrivial=True)
+    run.count('range:requests', len(case['starts']))
+    for o in obs['reads']:
+        st = o['start']
+        sig = {'op': 'range', 'maxb': case['maxb'], 'size': len(data), 'start': st}
+        if 'error' in o:
+            run.violation(case, 'range request bytes=%d- of a %d byte stream raised %s' % (st, len(data), o['error']), signature=sig)
+            return
+        body = raw['bodies'][st]
+        want = data[st:]
+        if body[:len(want)] != want:
+            run.violation(case, ('range request bytes=%d- (MAX_BLOB_SIZE %d, %d byte file): the bytes served are not the file '
+                                 'from offset %d (skip_blobs=%s, offset=%s; first bytes %s, expected %s)'
+                                 % (st, case['maxb'], len(data), st, o['skip_blobs'], o['offset'], body[:8].hex(),
+                                    want[:8].hex())), signature=sig)
+            return
+    big = len(data) > 65536
+    mod = {'reads': []}
+    for st in case['starts']:
+        r = model.call('range', maxb=case['maxb'], file='' if big else data.hex(), start=st)
+        real = data[st:]
+        mod['reads'].append({'start': st, 'skip_blobs': r['skip_blobs'], 'offset': r['offset'],
+                             'body': hashlib.sha384(real).hexdigest() if big else r['body'], 'padding_is_zero': True})
+    run.compare('C02.range_read', case, obs, mod)
+
+
+def range_cases(rng, tier):
+    cases = []
+
+    def mk(maxb, size, starts, **kw):
+        return dict({'op': 'range', 'maxb': maxb, 'save_blobs': None, 'name': 'movie.mp4', 'key': rng.randbytes(16).hex(),
+                     'iv_mode': 'random', 'iv_seed': rng.randrange(1 << 30), 'starts': sorted(set(x for x in starts if 0 <= x < size)),
+                     'data': {'size': size, 'kind': 'random', 'seed': rng.randrange(1 << 30)}}, **kw)
+    for maxb in (32, 48):
+        c = maxb - 1
+        size = 5 * c + 7
+        starts = [0, 1, size - 1]
+        for k in range(1, 6):       # around every multiple of the plaintext per blob and of (MAX_BLOB_SIZE - 2)
+            starts += [k * c - 1, k * c, k * c + 1] + [k * (c - 1) + j for j in range(-1, k + 1)]
+        cases.append(mk(maxb, size, starts))
+        cases.append(mk(maxb, 2 * c, [0, c - 1, c, 2 * c - 1]))
+        cases.append(mk(maxb, 1, [0]))
+    if tier == 'thorough':
+        cases.append(mk(32, 31 * 4 + 3, range(0, 31 * 4 + 3)))
+        cases.append(mk(17, 16 * 7, range(0, 16 * 7)))
+    M = REAL_MAXB        # the real constant: the three starts of the report (and their neighbours)
+    cases.append(mk(M, 2 * (M - 1) + 5000, [M - 2, 2 * (M - 2), 2 * (M - 2) + 1] +
+                    ([M - 3, M - 1, 2 * (M - 1), 2 * (M - 1) + 4999] if tier == 'thorough' else [])))
+    for _ in range(vlib.scaled(tier, 4, 80)):
+        maxb = rng.choice([17, 32, 64])
+        size = rng.randrange(1, 7 * maxb)
+        cases.append(mk(maxb, size, [rng.randrange(size) for _ in range(6)], save_blobs=rng.choice([None, False])))
+    return cases
+
+
+async def impl_recover(loop, case):
+    """a descriptor from another client is downloaded and saved; the sd blob file is lost; the daemon restarts"""
+    set_maxb(case['maxb'])
+    env = Env(loop, save_blobs=case.get('save_blobs'))
+    await env.open()
+    obs, raw = {}, {}
+    sm = ms = st2 = None
+    try:
+        data = gen_data(case['data'])
+        raw['data'] = data
+        own = await publish_and_load(loop, env, case, data)
+        nm = case['foreign']
+        blobs = [dict({'length': b.length, 'blob_num': b.blob_num, 'iv': b.iv},
+                      **({'blob_hash': b.blob_hash} if b.blob_hash else {})) for b in own.blobs]
+        d = {'stream_type': 'lbryfile', 'stream_name': nm.encode().hex(), 'key': own.key,
+             'suggested_file_name': nm.encode().hex(), 'blobs': blobs}
+        d['stream_hash'] = spec_stream_hash(nm, d['key'], nm, blobs)
+        rawb = json.dumps(d, sort_keys=True).encode()
+        h = hashlib.sha384(rawb).hexdigest()
+        sd_path = os.path.join(env.blob_dir, h)
+        with open(sd_path, 'wb') as f:
+            f.write(rawb)
+        loaded = await env.bm.get_stream_descriptor(h)
+        await env.storage.store_stream(env.bm.get_blob(h), loaded)
+        dl = env.conf.download_dir = os.path.join(env.dir, 'downloads')
+        os.mkdir(dl)
+        ms = ManagedStream(loop, env.conf, env.bm, h, dl, descriptor=loaded)
+        await ms.save_file()
+        if ms.file_output_task:
+            await asyncio.wait([ms.file_output_task], timeout=10)
+        obs['first_save'] = {'file_name': ms.file_name, 'listing': dir_listing(dl)}
+        await ms.stop_tasks()
+        # the claim the stream was downloaded from (the daemon only lists files that have one)
+        from lbry.schema.claim import Claim
+        claim = Claim()
+        claim.stream.source.sd_hash = h
+        claim.stream.source.name = 'claimed-name.bin'
+        await env.storage.save_claims([{'txid': 'aa' * 32, 'nout': 0, 'claim_id': 'bb' * 20, 'name': 'some-claim',
+                                        'amount': '1.0', 'height': 1, 'address': 'bExampleAddress', 'claim_sequence': 1,
+                                        'value': claim}])
+        # the sd blob file disappears (blob files deleted by hand, or downloaded with save_blobs off); restart
+        env.bm.stop()
+        os.remove(sd_path)
+        for nmf in os.listdir(dl):
+            os.remove(os.path.join(dl, nmf))
+        env.bm = BlobManager(loop, env.blob_dir, env.storage, env.conf)
+        await env.bm.setup()
+        sm = StreamManager(loop, env.conf, env.bm, None, env.storage, None)
+        await sm.initialize_from_database()          # finds the sd blob missing: recover_streams rewrites the rows
+        obs['sd_blob_restored'] = os.path.isfile(sd_path)
+        sm.stop()
+        sm = StreamManager(loop, env.conf, env.bm, None, env.storage, None)
+        await sm.initialize_from_database()          # the next start loads what recovery stored
+        st2 = sm._sources.get(h)
+        if st2 is None:
+            obs['recovered'] = None
+            return obs, raw
+        obs['recovered'] = {'file_name': st2.file_name,
+                            'full_path_name': None if st2.full_path is None else os.path.basename(st2.full_path),
+                            'sd_blob_restored': obs.pop('sd_blob_restored')}
+        await st2.save_file()
+        if st2.file_output_task:
+            await asyncio.wait([st2.file_output_task], timeout=10)
+        obs['recovered']['listing'] = dir_listing(dl)
+        return obs, raw
+    finally:
+        for x in (ms, st2):
+            if x is not None:
+                try:
+                    await x.stop_tasks()
+                except Exception:
+                    pass
+        if sm is not None:
+            try:
+                sm.stop()
+            except Exception:
+                pass
+        await env.close()
+        set_maxb(REAL_MAXB)
+
+
+def check_recover(run, model, loop, case):
+    obs, raw = loop.run_until_complete(impl_recover(loop, case))
+    data = raw['data']
+    run.case(case, nontrivial=True)
+    run.count('recover:%s' % ('lost' if obs.get('recovered') is None else 'recovered'))
+    sig = {'op': 'recover', 'name': case['foreign']}
+    rec = obs.get('recovered')
+    bad = None
+    if rec is None:
+        bad = 'the stream published as %r is gone after the restart (recovery failed)' % case['foreign']
+    else:
+        for what in ('file_name', 'full_path_name'):
+            if rec[what] is None or name_unsafe(rec[what]):
+                bad = ('after recovery from the database the stream published as %r has %s = %r: %s'
+                       % (case['foreign'], what, rec[what], name_unsafe(rec[what] or '')))
+                break
+        if not bad:
+            for nmf, content in rec['listing'].items():
+                if name_unsafe(nmf):
+                    bad = 'after recovery save_file() wrote to %r: %s' % (nmf, name_unsafe(nmf))
+                elif content != data.hex():
+                    bad = 'after recovery save_file() wrote a file that differs from the published one'
+            if not bad and not rec['listing']:
+                bad = 'after recovery save_file() wrote no file'
+    if bad:
+        run.violation(case, bad, signature=sig)
+        return
+    nm = uncps(model.call('recovered_name', sugg=cps(case['foreign'])))
+    first = uncps(model.call('save_name', sugg=cps(case['foreign']))['save'])
+    mod = {'first_save': {'file_name': first, 'listing': {first: data.hex()}},
+           'recovered': {'file_name': nm, 'full_path_name': nm, 'sd_blob_restored': True, 'listing': {nm: data.hex()}}}
+    run.compare('C02.recover', case, obs, mod)
+
+
+RECOVER_NAMES = ['inv\noice\x07.pdf', 'holiday video.mp4', '../../x', 'dir/sub/file\x00.exe', 'C:\\Users\\x\\evil.exe', 'a\x7fb\x85c\x9f.txt',
+                 'CON', 'trailing/', 'tab\there.txt ', 'cafe\u0301.txt', 'x/ lead', 'a/b/.\n']
+
+
+def recover_cases(rng, tier):
+    cases = []
+    names = RECOVER_NAMES if tier == 'thorough' else RECOVER_NAMES[:8]
+    for nm in names:
+        maxb = REAL_MAXB      # recovery rewrites the sd blob through set_length, which honours MAX_BLOB_SIZE
+        cases.append({'op': 'recover', 'maxb': maxb, 'save_blobs': None, 'name': 'src.bin', 'key': rng.randbytes(16).hex(),
+                      'iv_mode': 'random', 'iv_seed': rng.randrange(1 << 30), 'foreign': nm,
+                      'data': {'size': rng.randrange(1, 3000), 'kind': 'random', 'seed': rng.randrange(1 << 30)}})
+    return cases
+
 # ------------------------------------------------------------------------------------------------
 # (b) tampering of valid descriptors
 # ------------------------------------------------------------------------------------------------
@@ -1197,6 +1639,26 @@ def tamper_ops(d, rng):
             t['blobs'][i]['iv'] = b['iv'][:-1]
             t['blobs'][i]['length'] = int(b['iv'][-1] + str(b['length']))
             yield 'shift:blob%d.iv>length' % i, t
+        if len(str(b['length'])) >= 2 and str(b['length'])[1] != '0':
+            t = cp()       # the other direction: the length's first digit becomes the 33rd iv character
+            t['blobs'][i]['iv'] = b['iv'] + str(b['length'])[0]
+            t['blobs'][i]['length'] = int(str(b['length'])[1:])
+            yield 'shift2:blob%d.iv<length' % i, t
+    # two-field variants (the key changes width)
+    t = cp()
+    t['stream_name'], t['key'] = N + K[:2], K[2:]
+    yield 'shift2:name<key', t
+    if len(S) >= 2:
+        t = cp()
+        t['key'], t['suggested_file_name'] = K + S[:2], S[2:]
+        yield 'shift2:key<sugg', t
+    if len(N) >= 2:
+        t = cp()
+        t['stream_name'], t['key'] = N[:-2], N[-2:] + K
+        yield 'shift2:name>key', t
+    t = cp()
+    t['key'], t['suggested_file_name'] = K[:-2], K[-2:] + S
+    yield 'shift2:key>sugg', t
     # --- malformed JSON (raw bytes)
     raw = json.dumps(d, sort_keys=True).encode()
     yield 'json:truncated', raw[:-1]
@@ -1217,6 +1679,31 @@ def tamper_ops(d, rng):
 
 
 COMMITTED = ('stream_name', 'key', 'suggested_file_name')
+
+
+def ambiguity_class(base, raw):
+    """The known weakness of the hash format: a tampering whose concatenated hash preimages are byte-identical to the
+    base's (content only moved across a field boundary).  Returns the known-finding class, or None when the
+    preimages differ (then an accepted tampering is a plain violation)."""
+    try:
+        d = json.loads(raw.decode())
+
+        def top(x):
+            return x['stream_name'].lower() + x['key'] + x['suggested_file_name'].lower()
+
+        def blob(b):
+            return (b['blob_hash'] if b['length'] != 0 else '') + str(b['blob_num']) + b['iv'] + str(b['length'])
+        if len(d['blobs']) != len(base['blobs']) or top(d) != top(base):
+            return None
+        if [blob(b) for b in d['blobs']] != [blob(b) for b in base['blobs']]:
+            return None
+        if d['blobs'] != base['blobs']:
+            return 'shift:blobN.iv>length'
+        moved_right = (len(d['stream_name']), len(d['stream_name']) + len(d['key'])) < \
+                      (len(base['stream_name']), len(base['stream_name']) + len(base['key']))
+        return 'shift:name>key>sugg' if moved_right else 'shift:name<key<sugg'
+    except Exception:
+        return None
 
 
 def typed(d):
@@ -1344,10 +1831,10 @@ def check_tamper(run, model, loop, blob_dir, base, op, t, corpus_id=None):
                 bad = ('tampered %s accepted under the unchanged stream hash %s… (%s)'
                        % (','.join(diff), base['stream_hash'][:12], op))
     if bad:
-        if op.startswith('shift:'):
-            sig = {'op': 'tamper', 'class': re.sub(r'blob\d+', 'blobN', op)}
-        else:
-            sig = {'op': 'tamper', 'tamper': op, 'raw_sha384': hashlib.sha384(raw).hexdigest()}
+        sig = {'op': 'tamper', 'tamper': op, 'raw_sha384': hashlib.sha384(raw).hexdigest()}
+        amb = ambiguity_class(base, raw) if accepted and base is not None else None
+        if amb:
+            sig = {'op': 'tamper', 'class': amb}
         run.violation(case, bad, signature=sig)
         return
     # --- model
@@ -1483,6 +1970,12 @@ def run_case(run, model, loop, case, tdir):
         check_multi(run, model, loop, case)
     elif op == 'daemon':
         check_daemon(run, model, loop, case)
+    elif op == 'savecancel':
+        check_savecancel(run, model, loop, case)
+    elif op == 'range':
+        check_range(run, model, loop, case)
+    elif op == 'recover':
+        check_recover(run, model, loop, case)
     elif op == 'tamper':
         raw = bytes.fromhex(case['raw'])
         try:
@@ -1505,7 +1998,7 @@ def main(run):
                 'imports it: sizes 0,1,2,15,16,17 and k*(maxb-1)+-2, multiples of 16 around them, 16/24/32-byte keys, '
                 'random/counter/constant IV sequences, random/zero/padding-like/periodic contents, odd file names, plus '
                 'true 2 MiB runs, both descriptor layouts (old_sort false/true); each published stream is loaded back with from_stream_descriptor_blob and saved with '
-                'ManagedStream._save_file. (a2) 2-4 streams (equal and different sizes, shared key or shared content) published under ONE blob manager, reloaded, and read twice and in shuffled order, with range-request style partial reads and saving reads in between, through ManagedStream._aiter_read_stream -> StreamDownloader.cached_read_blob (shared decrypted-blob LRU of default size 32, tiny, or off). (a3) the daemon path: StreamManager.create then the real ManagedStream.save_file, and hand-made consistent descriptors carrying unsanitised names (path traversal, NUL, controls, DOS names, Unicode blanks, NFD) loaded through BlobManager.get_stream_descriptor + ManagedStream: suggested_file_name, file_name, the saved path and content. Round trips also run with the non-default save_blobs=False; names include decomposed Unicode, tamperings include the NFC/NFD twin of a committed name. (b) every tampering op x every field (flip/case/truncate/extend/empty/'
+                'ManagedStream._save_file. (a2) 2-4 streams (equal and different sizes, shared key or shared content) published under ONE blob manager, reloaded, and read twice and in shuffled order, with range-request style partial reads and saving reads in between, through ManagedStream._aiter_read_stream -> StreamDownloader.cached_read_blob (shared decrypted-blob LRU of default size 32, tiny, or off). (a3) the daemon path: StreamManager.create then the real ManagedStream.save_file, and hand-made consistent descriptors carrying unsanitised names (path traversal, NUL, controls, DOS names, Unicode blanks, NFD) loaded through BlobManager.get_stream_descriptor + ManagedStream: suggested_file_name, file_name, the saved path and content. (a4) histories: the real ManagedStream.save_file cancelled after the k-th blob write (k = 1..n+1; stop_tasks, stop, a second save_file) then saved again; HTTP range requests through the real stream_file (mocked request, collected body) for starts around every multiple of MAX_BLOB_SIZE-1 and MAX_BLOB_SIZE-2, small configured constant and the real 2 MiB one; a restart after the sd blob file was lost (StreamManager.initialize_from_database -> recover_streams) for descriptors with unsanitised names. Round trips also run with the non-default save_blobs=False; names include decomposed Unicode, tamperings include the NFC/NFD twin of a committed name. (b) every tampering op x every field (flip/case/truncate/extend/empty/'
                 'non-hex/non-ascii/bad UTF-8/type change/missing, number and length arithmetic, drop/duplicate/swap '
                 'blobs with and without renumbering and re-hashing, terminator changes, boundary shifts, malformed '
                 'JSON) of valid descriptors with 0..12 data blobs. (c) file names from an alphabet of letters, dots, '
@@ -1525,6 +2018,12 @@ def main(run):
             check_multi(run, model, loop, case)
         for case in daemon_cases(rng, run.tier):
             check_daemon(run, model, loop, case)
+        for case in savecancel_cases(rng, run.tier):
+            check_savecancel(run, model, loop, case)
+        for case in range_cases(rng, run.tier):
+            check_range(run, model, loop, case)
+        for case in recover_cases(rng, run.tier):
+            check_recover(run, model, loop, case)
         tamper_round(run, model, loop, rng, run.tier)
         name_round(run, model, rng, run.tier)
     finally:
